@@ -121,8 +121,10 @@ def check_program(ctx, prog, layout, offsets, scratch, roles=QUERY_ROLES):
                 outcome = "wrong:PRIVATE-entity-of-another-module" if priv else f"wrong:other-entity-same-spelling({oe.kind})"
                 if not priv and o.scope is not None and fws.leak_through_private_module(o.scope, oe):
                     outcome = "wrong:entity-leaked-through-a-default-PRIVATE-module"
+                elif o.scope is not None and fws.hidden_by_rename_list(o.scope, o.text, oe):
+                    outcome = "wrong:name-hidden-by-a-rename-list-still-resolves-to-the-renamed-entity"
         label = f"def:{o.role}:{o.ent.kind}:via-{bp}:{outcome}"
-        if outcome == "wrong:entity-leaked-through-a-default-PRIVATE-module":
+        if outcome in ("wrong:entity-leaked-through-a-default-PRIVATE-module", "wrong:name-hidden-by-a-rename-list-still-resolves-to-the-renamed-entity"):
             label = "def:" + outcome
         if o.role == "member" and o.tok_i >= 2 and o.stmt.toks[o.tok_i - 1] == "%" and (id(o.stmt), o.tok_i - 2) in fail_by_tok:
             # the base of this % chain was already bound wrongly: same root cause, same signature
